@@ -282,6 +282,8 @@ class CrossRecurrencePlot(RecurrencePlot):
         self.CR = recurrence
         self.N = N
         self.M = M
+        #  the threshold now in force (reported by __str__)
+        self.threshold = threshold
 
     def set_fixed_recurrence_rate(self, recurrence_rate):
         """
@@ -305,6 +307,8 @@ class CrossRecurrencePlot(RecurrencePlot):
         self.CR = recurrence
         self.N = N
         self.M = M
+        #  no fixed threshold is in force any more
+        self.threshold = None
 
     #
     #  Extended RQA measures
